@@ -1201,7 +1201,10 @@ fn make_case(stream: &str, text: &str, intended: Option<&str>, mut tags: Vec<Str
     tags.push(format!("len:{}", match n_chars { 0..=99 => "<100", 100..=399 => "100-399", 400..=999 => "400-999", _ => ">=1000" }));
     tags.sort();
     tags.dedup();
-    let args = format!("{} {} {} {} {}", coq_str(text), uni, queries, merged, regexes);
+    // <str as Debug> on the non-ASCII characters of the text (verbatim or \u{..}): read by the model for the text of `node`
+    // statements (Display of the variable; dump.rs writes `format!("{}", node)` into that field of the real AST)
+    let print = crate::c20d::print_table(&[text]);
+    let args = format!("{} {} {} {} {} {}", coq_str(text), uni, queries, merged, regexes, print);
     let nontrivial = if stream == "C07" { parsed_ok && (pred.tags.contains("comment") || pred.tags.contains("query:comment") || !text.is_ascii()) && pred.n_stmts >= 3 }
                      else { pred.toks.len() >= 3 || n_chars >= 8 };
     let replay = json!({"stream": stream, "text": text, "impl": imp, "intended": intended,
